@@ -1,5 +1,6 @@
 // C12: all id-to-value index implementations behave as one mathematical map.
 #define OSMIUM_WANT_NODE_LOCATION_MAPS 1
+#include "tmpdir.hpp"
 #include "gen.hpp"
 
 #include <osmium/handler/node_locations_for_ways.hpp>
@@ -28,11 +29,13 @@ static osmium::Location value_for(uint64_t id, uint64_t salt) {
     return osmium::Location{x, y};
 }
 
+static std::string tmpname_raw(const char* tag, int counter) { return tmpdir::prefix() + "c12-" + std::to_string(getpid()) + "-" + tag + "-" + std::to_string(counter); }
+static tmpdir::Scope* g_tmp_scope = nullptr;  // files of the running case: unlinked when the case ends, however it ends
 static std::string tmpname(const char* tag) {
     static int counter = 0;
-    return "/dev/shm/verif-c12-" + std::to_string(getpid()) + "-" + tag + "-" + std::to_string(counter++);
+    const std::string name = tmpname_raw(tag, counter++);
+    return g_tmp_scope ? g_tmp_scope->add(name) : name;
 }
-
 struct Model {
     std::map<uint64_t, osmium::Location> m;
 };
@@ -455,6 +458,11 @@ static void flex_switch(Src& s) {
 }
 
 static void prop(Src& s) {
+    tmpdir::Scope scope;
+    struct Bind {
+        explicit Bind(tmpdir::Scope* sc) { g_tmp_scope = sc; }
+        ~Bind() { g_tmp_scope = nullptr; }
+    } bind{&scope};
     if (vp::extra("only") == "flex") {
         flex_switch(s);
         return;
